@@ -21,6 +21,8 @@ NOTES = {
     "C11-1": ("silent", "after fix 26aac09 every caller holds stateMu around the whole function, the check-then-act window is closed; the rule fires on the pre-fix tree (verified) — replaced by hand-made C11-4"),
 }
 for d in sorted(os.listdir(os.path.join(ROOT, "seeded"))):
+    if not os.path.isdir(os.path.join(ROOT, "seeded", d)):
+        continue
     p = os.path.join(ROOT, "seeded", d, "meta.json")
     prop = d.split("-")[0]
     meta = json.load(open(p)) if os.path.exists(p) else {"property": prop, "seed": d, "origin": "hand-made by the checker's author after a repair made the sub-agent's seed moot (see README.md)"}
